@@ -618,6 +618,13 @@ def discharge(m, q, p, in_closure):
         return "i * tick_size with i < LEVELS (assumption LEVELS * tick_size < 2^32)"
     if p.kind.startswith("overflow:Mul") and in_closure and e and any(x[0] == "param" and x[1] == 2 for x in walk(e)) and any(fld(x, m.f_tick) for x in walk(e) if x[0] == "field"):
         return "i * tick_size with i < LEVELS (assumption LEVELS * tick_size < 2^32)"
+    if p.kind == "panic" and not in_closure:
+        # `match c.get(i) { Some(x) => x, None => panic!(..) }`: the explicit form of the bounds check of c[i]
+        for a in q.cfg.guards(p.b):
+            if a[0] == "variant" and a[2] == ("None",) and a[1][0] == "call" and a[1][4] in ("get", "get_mut") and len(a[1][2]) == 2:
+                root, chain = field_chain(a[1][2][1])
+                if root[0] == "param" and root[2] in ("order_id", "asset") and root[1] >= 2:
+                    return "explicit panic on a failed lookup by the caller-supplied %s (valid-history precondition)" % root[2]
     if p.kind in ("index", "bounds") and e:
         idx = None
         if p.kind == "index":
